@@ -3,16 +3,38 @@ import os
 from cohdl._compiler.frontend import generate_internal_representation
 from cohdl._compiler.backend import generate_vhdl
 
+from ._prefix import _Prefix
+
+
+class _CompileState:
+    # Some parts of the std library keep track of the code that is currently
+    # traced in global state that is updated by the traced code itself
+    # (for example the stack of active std.prefix scopes).
+    # When a design is rejected, the traced code that would restore that
+    # state is never executed. This context manager restores the state at the
+    # end of each compilation so it cannot leak into later compilations.
+
+    def __enter__(self):
+        self._prefix_scope = list(_Prefix._prefix_scope)
+        return self
+
+    def __exit__(self, *args):
+        _Prefix._prefix_scope[:] = self._prefix_scope
+
 
 class VhdlCompiler:
     @classmethod
     def to_ir(cls, entity):
-        return generate_internal_representation(entity)
+        with _CompileState():
+            return generate_internal_representation(entity)
 
     @classmethod
     def to_vhdl_library(cls, top_entity, *, additional_reserved_names: set[str] = None):
-        ir = generate_internal_representation(top_entity)
-        return generate_vhdl(ir, additional_reserved_names=additional_reserved_names)
+        with _CompileState():
+            ir = generate_internal_representation(top_entity)
+            return generate_vhdl(
+                ir, additional_reserved_names=additional_reserved_names
+            )
 
     @classmethod
     def to_string(cls, top_entity, *, additional_reserved_names: set[str] = None):
